@@ -33,7 +33,7 @@ package dns
 //@   assert at "return nil, ErrShortRead" short: n < 12
 //@   assert at "return nil, ErrShortRead" consumed: callres("isPacketConn") || called("ReadFull")
 //@   ensures hdr: ret1 == nil ==> len(ret0) >= 12
-//@ func (*Server).readTCP [C12]
+//@ func (*Server).readTCP [C12 C14]
 //@   requires srv != nil && conn != nil
 //@   assert at* "conn.Read(" fullreads: false
 //@   callsite "ReadFull" body: len(arg1) == length
@@ -48,6 +48,11 @@ package dns
 //@   opt no-safety
 //@   requires c != nil && m != nil && co != nil
 //@   exit id: err == nil ==> r != nil && r.Id == m.Id
+// which of the two reply-ID policies applies is decided by the transport of the connection in use: datagram
+// connections skip replies with a foreign ID, streams fail with ErrId on the first one
+//@   callsite "isPacketConn" transport: arg0 == co.Conn
+//@   exit stream: called("isPacketConn") && !callres("isPacketConn") && called("ReadMsg") && callres("ReadMsg", 1) == nil && callres("ReadMsg", 0).Id != m.Id ==> err != nil
+//@   exit policy: called("ReadMsg") ==> called("isPacketConn")
 //@   callsite "WriteMsg" query: arg0 == co && arg1 == m
 //@   callsite "ReadMsg" after: arg0 == co && called("WriteMsg") && callres("WriteMsg") == nil
 //@   exit werr: called("WriteMsg") && callres("WriteMsg") != nil ==> err != nil && r == nil
